@@ -281,6 +281,20 @@ func evConcurrentWrite(node string) h.Event {
 	}}
 }
 
+// evPodRecreatedSelecting: a pod that selected no configured group ("team: somebody-else") is deleted
+// and re-created under the same name, now selecting the group (wherever it is bound).
+func evPodRecreatedSelecting(g h.GroupSpec) h.Event {
+	return h.Event{Label: "pod-recreated-same-name(no group -> " + g.Opts.Name + ")", Apply: func(hh *h.Hist) {
+		for _, p := range hh.W.Pods {
+			if p.Spec.NodeSelector["team"] == "somebody-else" {
+				p.Spec.NodeSelector = sel(g)
+				p.UID = p.UID + "r"
+				return
+			}
+		}
+	}}
+}
+
 // evDescribeOmits: during the coming scan every refresh gets a successful DescribeAutoScalingGroups
 // answer that leaves the ASG out (a partial answer; provider rebuilds are answered in full).
 func evDescribeOmits(asg string) h.Event {
